@@ -4,6 +4,7 @@ import (
 	"bytes"
 	"fmt"
 	"math/big"
+	"sync"
 
 	"github.com/tjfoc/gmsm/sm2"
 
@@ -144,6 +145,37 @@ func runC13(c *Ctx) {
 			runCase(kxCase{"kx/shared-point-short-coordinate", a, b, ra, rb, ref.DefaultUID, []byte("bob"), 32})
 		}
 		rep.Count("shared_point_short_coordinate_cases", int64(found))
+	}
+
+	// the derived key may be all zero (1 exchange in 256 at klen = 1): GM/T 0003.3 prescribes the key, not a failure.
+	// Found once by luck at seed 7; now searched for in every run (reference only, a few hundred exchanges).
+	{
+		a, b, ra := keys[0], keys[1], keys[2]
+		r := c.Rng("zerokey")
+		base := new(big.Int).SetBytes(r.Bytes(30))
+		var mu sync.Mutex
+		var hits []kxCase
+		Par(1200, func(j int) {
+			mu.Lock()
+			enough := len(hits) >= 2
+			mu.Unlock()
+			if enough {
+				return
+			}
+			rb := mkKey("eph-for-zero-key", new(big.Int).Add(base, big.NewInt(int64(j+1))))
+			w, err := ref.KeyExchange(1, []byte("alice"), []byte("bob"), a.d, P(a), ra.d, P(ra), P(b), P(rb), true)
+			if err == nil && len(w.K) == 1 && w.K[0] == 0 {
+				mu.Lock()
+				hits = append(hits, kxCase{"kx/derived-key-all-zero/klen=1", a, b, ra, rb, []byte("alice"), []byte("bob"), 1})
+				mu.Unlock()
+			}
+		})
+		for i, h := range hits {
+			if i < 2 {
+				runCase(h)
+			}
+		}
+		rep.Count("derived_key_all_zero_cases", int64(len(hits)))
 	}
 
 	// hostile peer ephemerals: must yield an error, not a key
